@@ -196,7 +196,7 @@ func runC33(c *simkit.Ctx) {
 					continue
 				}
 				for _, sg := range hdr.SigData {
-					if signature.Verify(bk, hash[:], sg) == nil {
+					if c16SigValid(bk, hash[:], sg) {
 						valid[id] = true
 						break
 					}
